@@ -275,7 +275,9 @@ pub fn drive<E: Engine>(engine: &E, args: &Args) -> i32 {
     };
     let a = mk();
     let b = mk();
-    if a != b {
+    // a tree that violates the property may do so in layout-dependent ways
+    // (hash-map order inside files); only a clean double run is a canary
+    if a.1 == 0 && b.1 == 0 && a != b {
       eprintln!("harness error: nondeterminism detected in {} run {} (traces differ)", engine.name(), i);
       return 2;
     }
